@@ -61,6 +61,9 @@ _lg.propagate = False
 from verif.oracles import kepler_ref as kr  # noqa: E402
 
 from resonaate.dynamics.dynamics_base import Dynamics  # noqa: E402
+from functools import partial  # noqa: E402
+
+from resonaate.dynamics.integration_events.finite_thrust import ScheduledFiniteBurn, ntwBurn  # noqa: E402
 from resonaate.dynamics.integration_events.scheduled_impulse import ScheduledImpulse  # noqa: E402
 from resonaate.dynamics.special_perturbations import SpecialPerturbations  # noqa: E402
 from resonaate.dynamics.two_body import TwoBody  # noqa: E402
@@ -579,6 +582,38 @@ def _run_prop(res, item):
                         extra={"K": K, "col": k})
             if two_body:
                 _conserve(ctx, orb, x0s[k], gb2[:, k], K > 1, "batch")
+    # ---- the same batch in other memory layouts (Fortran-ordered copy, transposed view of a (K, 6) table): the result
+    # must not depend on how the caller's block is laid out in memory
+    if K > 1 and not _bad(gb) and np.asarray(gb).shape == want_shape:
+        table = np.ascontiguousarray(np.stack(x0s, axis=0))  # (K, 6), C-ordered
+        for lname, block in (("fortran_copy", np.asfortranarray(X)), ("transposed_view", table.T)):
+            gl = _call(dyn.propagate, ScenarioTime(t0), ScenarioTime(t2), block)
+            if _bad(gl) or np.asarray(gl).shape != want_shape:
+                ctx.compare("batch", orbs[0], gl, x0s[0], 1.0, 1.0, nontrivial=True, detail="memory_layout/" + lname, extra={"K": K}, shape=want_shape)
+                continue
+            gl2 = np.asarray(gl).reshape(6, K)
+            for k, orb in enumerate(orbs):
+                ctx.compare("batch", orb, gl2[:, k], wholes[k], ctx.tp(orb[0], orb[1]), ctx.tv(orb[0], orb[1]), nontrivial=True,
+                            detail="memory_layout/" + lname, extra={"K": K, "col": k})
+            res.case("input_unchanged", ctx.base(orbs[0], layout=lname), bool(np.array_equal(np.asarray(block), X)),
+                     signature=f"C03/input_mutated/{kind}/{method}", item=item)
+    # ---- a batch under a state-dependent finite thrust (along-track burn active over the whole call): every column must
+    # get the thrust its own state implies, i.e. equal its own single call with the same burn
+    if K > 1 and T <= 300.0 and mode in ("full", "sp"):
+        burn = lambda: [ScheduledFiniteBurn(t0 - 5.0, t2 + 5.0, partial(ntwBurn, acc_vector=np.array([0.0, 2.0e-5, 0.0])), 10001)]  # noqa: E731
+        gt = _call(dyn.propagate, t0, t2, X.copy(), scheduled_events=burn())
+        if _bad(gt) or np.asarray(gt).shape != want_shape:
+            ctx.compare("batch_thrust", orbs[0], gt, x0s[0], 1.0, 1.0, nontrivial=True, detail="layout", extra={"K": K}, shape=want_shape)
+        else:
+            gt2 = np.asarray(gt).reshape(6, K)
+            for k, orb in enumerate(orbs):
+                single = _call(dyn.propagate, t0, t2, x0s[k].copy(), scheduled_events=burn())
+                if _bad(single):
+                    continue
+                # the burn really acts (2e-5 km/s^2 over T): otherwise the comparison says nothing
+                acts = fw.maxabs(single[3:], wholes[k][3:]) > 0.2 * 2.0e-5 * T
+                ctx.compare("batch_thrust", orb, gt2[:, k], single, ctx.tp(orb[0], orb[1]), ctx.tv(orb[0], orb[1]), nontrivial=bool(acts),
+                            detail="column", extra={"K": K, "col": k, "burn_acts": bool(acts)})
     if mode == "batch_only":
         return ctx
     # propagateBulk with the (6, K) layout
